@@ -586,6 +586,8 @@ impl<'h> Interp<'h> {
 
     /// Run the policy thunk on one record, catching a scan break.
     pub fn run_thunk(&mut self, thunk: &Val, index: usize, rec: Record) -> Result<RecOutcome, Ctl> {
+        // the step budget guards against a non-terminating policy: it is per file record
+        self.fuel = self.fuel.max(2_000_000);
         self.cur = Some(rec);
         self.host.begin_record(index);
         let r = self.apply(thunk, vec![]);
